@@ -27,6 +27,9 @@ var validTemplates = []string{
 	"save [USD *] from @a\nset_tx_meta(\"k\", 1)\nsend [USD 5] (\n source = @world\n destination = @e\n)\nsend [USD *] (\n source = @a\n destination = @e\n)\nsend [USD 5] (\n source = @b allowing unbounded overdraft\n destination = @e\n)",
 	"vars {\n portion $por1\n portion $por2\n}\nsend [USD 10] (\n source = { $por1 from @a $por2 from @b 1/2 from { 1/2 from @c 1/2 from @d } }\n destination = { $por1 to @d 50% to { 1/4 to @c 3/4 to @d } $por2 to @e }\n)",
 	"vars {\n monetary $mon1 = balance(@fees, USD)\n account $acc1 = meta(@config, \"acc\")\n monetary $mon2 = balance($acc1, USD)\n}\nsend $mon1 (\n source = @world\n destination = $acc1\n)\nsend $mon2 (\n source = @world\n destination = @d\n)",
+	// the static rules know types, not signs or sizes: negative and zero literals wherever a number or an amount may stand
+	"vars {\n monetary $mon1\n number $num1\n}\nsend [USD 10] + [USD -3] (\n source = @world\n destination = @d\n)\nsend $mon1 - [USD -2] (\n source = @world\n destination = @d\n)\nsave [USD 5] + [USD -3] from @a\nset_tx_meta(\"k\", $num1 + -1)\nset_tx_meta(\"j\", -5)",
+	"vars {\n monetary $mon1\n}\nsend [USD 0] (\n source = { max [USD -1] from @a @b allowing overdraft up to [USD -5] max $mon1 - [USD 7] from @c }\n destination = { max [USD 0] to @d max [USD -2] kept remaining to @e }\n)\nsave [USD -0] from @a",
 	// valid by the static rules, but with warnings: none of them may be of error severity
 	"vars {\n number $num1\n}\nsend [USD 1] (\n source = @a\n destination = @d\n)",
 	"send [USD 1] (\n source = { 1/2 from @a 1/2 from @b remaining from @c }\n destination = { 100% to @d remaining kept }\n)",
